@@ -95,3 +95,15 @@ package resolver
 //@   assert at return 1 name == "" && haskey(r.activePlugins, key) && r.activePlugins[key] == result0 && implies(old(haskey(r.activePlugins, key)), result0 == old(r.activePlugins[key])) && ncalls("SubscribeToCluster") == 0
 //@   assert at return 2 name != "" && haskey(r.activeClusters, key) && r.activeClusters[key] == result0 && implies(old(haskey(r.activeClusters, key)), result0 == old(r.activeClusters[key]) && ncalls("SubscribeToCluster") == 0)
 //@   assert at call SubscribeToCluster#1 !haskey(r.activeClusters, key) && arg1 == name
+
+// The cleanup that runs when building a config selector fails (an interceptor
+// of a later route cannot be built): at that point the selector has taken NO
+// reference on the clusters it registered (the references are taken after the
+// last point of failure), so the cleanup must give none back -- it only
+// releases the route clusters (interceptors) it built. Giving back references
+// here takes them away from the current selector and from in-flight RPCs.
+//@ func (*xdsResolver).newConfigSelector$2
+//@   prop C51
+//@   loop 1 invariant ncalls("stop") == 0 && nchanges("clusterInfo.refCount") == 0
+//@   loop 2 invariant ncalls("stop") == 0 && nchanges("clusterInfo.refCount") == 0
+//@   assert at return end ncalls("stop") == 0 && nchanges("clusterInfo.refCount") == 0
